@@ -62,6 +62,9 @@ func load() (*Loaded, error) {
 			return nil, err
 		}
 		ld.files = append(ld.files, cf)
+		if spec := docArchSpec(cf.Pkg); spec != "" {
+			cf.Specs = append(cf.Specs, spec)
+		}
 		stub := cf.stub()
 		sp := filepath.Join(cf.Dir, stubFileName)
 		overlay[sp] = []byte(stub)
@@ -196,4 +199,52 @@ func (e *Engine) indexFn(fn *ssa.Function) {
 	for _, a := range fn.AnonFuncs {
 		e.indexFn(a)
 	}
+}
+
+
+// docArchSpec extracts, on every run, the GOARCH table of one packager from
+// the documentation (www/docs/goarch-to-pkg.md) and renders it as the spec
+// function docArch(a): the documented value, or a itself ("anything else
+// verbatim").  The table is the oracle of the architecture clauses of C02/C15.
+func docArchSpec(pkgPath string) string {
+	section := map[string]string{
+		nfpmPath + "/deb": "deb", nfpmPath + "/rpm": "rpm", nfpmPath + "/apk": "apk", nfpmPath + "/arch": "archlinux",
+	}[pkgPath]
+	if section == "" {
+		return ""
+	}
+	data, err := os.ReadFile(filepath.Join(repoDir, "www/docs/goarch-to-pkg.md"))
+	if err != nil {
+		return "func docArch(a string) string { return \"<documentation table missing>\" }"
+	}
+	in := false
+	var b strings.Builder
+	b.WriteString("func docArch(a string) string {\n\tswitch a {\n")
+	n := 0
+	for _, l := range strings.Split(string(data), "\n") {
+		t := strings.TrimSpace(l)
+		if strings.HasPrefix(t, "## ") {
+			in = strings.Trim(strings.TrimPrefix(t, "## "), "` ") == section
+			continue
+		}
+		if !in || !strings.HasPrefix(t, "|") {
+			continue
+		}
+		cells := strings.Split(strings.Trim(t, "|"), "|")
+		if len(cells) != 2 {
+			continue
+		}
+		k := strings.Trim(strings.TrimSpace(cells[0]), "`")
+		v := strings.Trim(strings.TrimSpace(cells[1]), "`")
+		if k == "GOARCH" || strings.HasPrefix(k, ":") || k == "" {
+			continue
+		}
+		fmt.Fprintf(&b, "\tcase %q:\n\t\treturn %q\n", k, v)
+		n++
+	}
+	b.WriteString("\t}\n\treturn a\n}")
+	if n == 0 {
+		return "func docArch(a string) string { return \"<no documented table for " + section + ">\" }"
+	}
+	return b.String()
 }
